@@ -22,7 +22,7 @@ Proof. exact ps_recovers. Qed.
 Print Assumptions C13_setup_recovers_same_connection.
 
 (** ... and from ANY pair-verify state likewise a correct pair-verify installs the session. *)
-Theorem C13_verify_recovers_same_connection : forall step keyed stor n pk, store_get stor n = Some pk ->
+Theorem C13_verify_recovers_same_connection : forall step keyed stor n pk, store_get stor n = Some (N.pos pk) ->
   let s1 := fst (fst (fst (pv_handle fixed step keyed stor (PVStart true)))) in
   let '(s2, k2, _, _) := if step =? 0 then pv_handle fixed step keyed stor (PVStart true)
                          else pv_handle fixed s1 keyed stor (PVStart true) in
